@@ -1308,6 +1308,16 @@ func KnownNonNil(mr *MemReach, v ssa.Value, b *ssa.BasicBlock) bool {
 
 func knownNonNil(mr *MemReach, v ssa.Value, b *ssa.BasicBlock) bool {
 	v = mr.Canon(v)
+	if c, ok := v.(*ssa.Call); ok {
+		if cal := StaticCallee(c); cal != nil {
+			if k, ok := nonNilIfArg(cal); ok && k < len(c.Call.Args) {
+				a := mr.Canon(c.Call.Args[k])
+				if classifySuccess(a, true) == triF || knownNonNil(mr, a, b) {
+					return true
+				}
+			}
+		}
+	}
 	fn := b.Parent()
 	for _, blk := range fn.Blocks {
 		ifi, ok := blk.Instrs[len(blk.Instrs)-1].(*ssa.If)
@@ -1411,8 +1421,10 @@ func alwaysNonNilError(fn *ssa.Function, depth int) bool {
 			if nm == "fmt.Errorf" || nm == "errors.New" {
 				continue
 			}
-			if !alwaysNonNilError(StaticCallee(x), depth+1) {
-				out = false
+			if cal := StaticCallee(x); !alwaysNonNilError(cal, depth+1) {
+				if k, ok := nonNilIfArg(cal); !(ok && k < len(x.Call.Args) && classifySuccess(x.Call.Args[k], true) == triF) {
+					out = false
+				}
 			}
 		case *ssa.UnOp:
 			if _, isG := x.X.(*ssa.Global); !(x.Op == token.MUL && isG) {
@@ -1427,4 +1439,46 @@ func alwaysNonNilError(fn *ssa.Function, depth int) bool {
 	nonNilMemo[fn] = out
 	nonNilMemoMu.Unlock()
 	return out
+}
+
+// nonNilIfArg: fn returns a single error and every return is either a constructed (non-nil)
+// error or the function's k-th parameter itself: the result is non-nil whenever argument k is.
+func nonNilIfArg(fn *ssa.Function) (int, bool) {
+	if fn == nil || fn.Blocks == nil {
+		return 0, false
+	}
+	res := fn.Signature.Results()
+	if res.Len() != 1 || res.At(0).Type().String() != "error" {
+		return 0, false
+	}
+	k, n := -1, 0
+	for _, b := range fn.Blocks {
+		ret, ok := b.Instrs[len(b.Instrs)-1].(*ssa.Return)
+		if !ok {
+			continue
+		}
+		n++
+		switch x := ret.Results[0].(type) {
+		case *ssa.MakeInterface:
+		case *ssa.Parameter:
+			idx := -1
+			for i, p := range fn.Params {
+				if p == x {
+					idx = i
+				}
+			}
+			if idx < 0 || k >= 0 && k != idx {
+				return 0, false
+			}
+			k = idx
+		case *ssa.Call:
+			nm := CalleeName(x)
+			if nm != "fmt.Errorf" && nm != "errors.New" && !alwaysNonNilError(StaticCallee(x), 1) {
+				return 0, false
+			}
+		default:
+			return 0, false
+		}
+	}
+	return k, n > 0 && k >= 0
 }
